@@ -40,8 +40,11 @@ def groups_for(strings, years, today, thorough, rnd, all_strings):
             {"text": f"2 {R} 2", "cls": "FullCaseCitation", "key": f"2|2|{E}", "want": {**want, "volume": "2"}},
             {"text": f"Bar, 1 {R} at 2.", "cls": "ShortCaseCitation", "key": key, "want": want},
             {"text": f"Bar, 1 {E} at 2 (quoting y).", "cls": "ShortCaseCitation", "key": key, "want": {**want, "reporter": E}},
-            {"text": f"1 {R} ___", "cls": "FullCaseCitation", "key": "ph", "selfonly": True, "want": {**want, "page": ""}},
-            {"text": f"1 {R} ___", "cls": "FullCaseCitation", "key": "ph", "selfonly": True, "want": {**want, "page": ""}},
+            {"text": f"1 {R} ___", "cls": "FullCaseCitation", "key": "ph", "selfonly": True, "want": {"volume": "1", "reporter": R}},
+            {"text": f"1 {R} ___", "cls": "FullCaseCitation", "key": "ph", "selfonly": True, "want": {"volume": "1", "reporter": R}},
+            # a placeholder written with a single underscore (the page pattern accepts one or more)
+            {"text": f"1 {R} _ (1999)", "cls": "FullCaseCitation", "key": "ph", "selfonly": True, "want": {"volume": "1", "reporter": R}},
+            {"text": f"1 {R} _ (1999)", "cls": "FullCaseCitation", "key": "ph", "selfonly": True, "want": {"volume": "1", "reporter": R}},
         ]
         # the string is an edition name AND a variation of other editions: exact names win whatever the year, also a
         # year in which only one of the OTHER editions was published (its first / last year)
